@@ -47,9 +47,18 @@ for name in names:
             subprocess.run(["git", "-C", "/repo", "checkout", "--", "."], check=True)
         else:
             subprocess.run(["git", "-C", "/repo", "worktree", "remove", "--force", wt])
+store_path = os.path.join(here, "seeded", "results.json")
+store = json.load(open(store_path)) if os.path.exists(store_path) else {}
+head = subprocess.run(["git", "-C", "/repo", "log", "-1", "--format=%h"], stdout=subprocess.PIPE, text=True).stdout.strip()
+vhead = subprocess.run(["git", "-C", here, "log", "-1", "--format=%h"], stdout=subprocess.PIPE, text=True).stdout.strip()
+for r in rows:
+    store[r[0]] = {"property": r[1], "exit": r[2], "verdict": r[3], "reported": r[4], "seconds": r[5], "repo_head": head, "verif_head": vhead}
+json.dump(store, open(store_path, "w"), indent=1, sort_keys=True)
 with open(os.path.join(here, "seeded", "RESULTS.md"), "w") as f:
-    f.write("| seed | property | exit | verdict line | what the check reported | s |\n|---|---|---|---|---|---|\n")
-    for r in rows:
-        f.write("| " + " | ".join(str(x).replace("|", "/") for x in r) + " |\n")
+    f.write("Seeded changes (independent sub-agents, property text only) run through the registered quick checks (tools/run_seeded.py).\n\n")
+    f.write("| seed | property | exit | verdict line | what the check reported | s | /repo | /verif |\n|---|---|---|---|---|---|---|---|\n")
+    for name in sorted(store):
+        r = store[name]
+        f.write("| " + " | ".join(str(x).replace("|", "/") for x in (name, r["property"], r["exit"], r["verdict"], r["reported"], r["seconds"], r["repo_head"], r["verif_head"])) + " |\n")
 caught = sum(1 for r in rows if r[2] == 1)
 print(f"{caught}/{len(rows)} seeded changes detected")
